@@ -93,6 +93,10 @@ def _sym_format(obj, format_spec=""):
     with NoTracing():
         is_sym = isinstance(obj, SymbolicInt)
         spec = format_spec if type(format_spec) is str else realize(format_spec)
+        const = getattr(type(obj), "_vf_format_const", None)
+    if const is not None:
+        # E2b: a harness-supplied container whose rendering (inside an exception message) is a constant
+        return const
     if is_sym and spec in ("", "d", "03d", "02x", "x"):
         cps = fmt_codepoints(obj, spec)
         if cps is not None:
